@@ -3,10 +3,11 @@ use crate::contract_info::require_version;
 use crate::error::ContractError;
 use crate::msg::MigrateMsg;
 use crate::version_info::get_version_info;
-use cosmwasm_std::{Addr, Coin, DepsMut, Env, Order, Response, Uint128};
+use cosmwasm_std::{Addr, Coin, DepsMut, Env, Order, Response, Uint128, Uint256};
+use std::convert::TryFrom;
 use cw_storage_plus::Map;
-use rust_decimal::prelude::{FromPrimitive, ToPrimitive};
-use rust_decimal::{Decimal, RoundingStrategy};
+use rust_decimal::prelude::FromPrimitive;
+use rust_decimal::Decimal;
 use schemars::JsonSchema;
 use semver::{Version, VersionReq};
 use serde::{Deserialize, Serialize};
@@ -107,22 +108,17 @@ impl BidOrderV3 {
     pub fn calculate_fee(&self, gross_proceeds: Uint128) -> Result<Option<Coin>, ContractError> {
         match &self.fee {
             Some(bid_order_fee) => {
-                // calculate expected ratio of quote remaining after this transaction
-                let expected_quote_ratio =
-                    self.get_quote_ratio(self.get_remaining_quote() - gross_proceeds);
-
-                // calculate expected remaining fee
-                let expected_remaining_fee = expected_quote_ratio
-                    .checked_mul(Decimal::from(bid_order_fee.amount.u128()))
-                    .ok_or(ContractError::TotalOverflow)?
-                    .round_dp_with_strategy(0, RoundingStrategy::MidpointAwayFromZero)
-                    .to_u128()
-                    .ok_or(ContractError::TotalOverflow)?;
+                // calculate expected remaining fee: the fee scaled by the ratio of quote
+                // remaining after this transaction
+                let expected_remaining_fee = self.get_fee_for_remaining_quote(
+                    bid_order_fee.amount,
+                    self.get_remaining_quote() - gross_proceeds,
+                )?;
 
                 // the bid fee due is the difference between the expected remaining fee and the current remaining fee
                 let bid_fee = self
                     .get_remaining_fee()
-                    .checked_sub(Uint128::new(expected_remaining_fee))
+                    .checked_sub(expected_remaining_fee)
                     .map_err(|_| ContractError::BidOrderFeeInsufficientFunds)?;
 
                 let bid_fee = Coin {
@@ -167,6 +163,32 @@ impl BidOrderV3 {
             .unwrap()
             .checked_div(Decimal::from_u128(self.quote.amount.u128()).unwrap())
             .unwrap()
+    }
+
+    /// Scales `fee` by `remaining_quote / quote.amount`, rounded half away from zero.
+    ///
+    /// Computed as one exact integer quotient: forming the ratio first as a 28-digit decimal
+    /// and then multiplying loses precision, which for large amounts lands on the wrong side
+    /// of the rounding midpoint.
+    pub fn get_fee_for_remaining_quote(
+        &self,
+        fee: Uint128,
+        remaining_quote: Uint128,
+    ) -> Result<Uint128, ContractError> {
+        let two = Uint256::from(2u8);
+        let numerator = fee
+            .full_mul(remaining_quote)
+            .checked_mul(two)
+            .map_err(|_| ContractError::TotalOverflow)?;
+        let denominator = Uint256::from(self.quote.amount)
+            .checked_mul(two)
+            .map_err(|_| ContractError::TotalOverflow)?;
+        let rounded = numerator
+            .checked_add(Uint256::from(self.quote.amount))
+            .map_err(|_| ContractError::TotalOverflow)?
+            .checked_div(denominator)
+            .map_err(|_| ContractError::TotalOverflow)?;
+        Uint128::try_from(rounded).map_err(|_| ContractError::TotalOverflow)
     }
 
     /// Returns the remaining amount of quote in the order
